@@ -5,6 +5,7 @@ package main
 
 import (
 	"fmt"
+	"regexp"
 	"strings"
 
 	"cvh/lib"
@@ -251,6 +252,8 @@ var accountNames = map[uint64][]string{4: {"W", "S", "Foo"}, 5: {"V", "W"}}
 var kindPool = []string{"struct", "struct", "struct", "resource", "resource", "enum", "event",
 	"struct interface", "struct interface", "resource interface", "attachment", "entitlement", "entitlement mapping"}
 
+var removedPragmaRE = regexp.MustCompile(`^#removedType\(([A-Za-z][A-Za-z0-9_]*)\)$`)
+
 type dgen struct {
 	r    *lib.Rng
 	root string
@@ -440,7 +443,7 @@ func (g *dgen) program() *gProgram {
 			}
 		}
 	}
-	if g.r.Chance(1, 8) {
+	if g.r.Chance(1, 3) {
 		p.Root.Pragmas = append(p.Root.Pragmas, g.pragma(p))
 	}
 	if g.r.Chance(1, 10) {
@@ -610,7 +613,7 @@ func (g *dgen) tweakTy(p *gProgram, t *gTy) *gTy {
 // mutate applies one mutation and returns its label
 func (g *dgen) mutate(p *gProgram) string {
 	d := g.pickDecl(p)
-	switch g.r.Intn(30) {
+	switch g.r.Intn(33) {
 	case 0:
 		fu := map[string]bool{}
 		for _, f := range d.Fields {
@@ -776,6 +779,58 @@ func (g *dgen) mutate(p *gProgram) string {
 		if g.r.Chance(1, 3) {
 			p.Root.Name = lib.Pick(g.r, []string{"C", "Test", "D"})
 			return "root-rename"
+		}
+	case 30, 31, 32:
+		// declare (again) a name that a #removedType pragma of the containing declaration covers:
+		// the second half of a history "remove S with the pragma, later re-introduce S"
+		// prefer a declaration that already carries such a pragma in the old version
+		var carriers []*gDecl
+		for _, c := range append([]*gDecl{p.Root}, p.Root.Nested...) {
+			for _, pr := range c.Pragmas {
+				if removedPragmaRE.MatchString(pr) {
+					carriers = append(carriers, c)
+					break
+				}
+			}
+		}
+		if len(carriers) > 0 && g.r.Chance(4, 5) {
+			d = lib.Pick(g.r, carriers)
+		}
+		if len(carriers) > 0 || d.Kind == "contract" || d.Kind == "contract interface" || g.r.Chance(1, 4) {
+			var names []string
+			for _, pr := range d.Pragmas {
+				if m := removedPragmaRE.FindStringSubmatch(pr); m != nil {
+					names = append(names, m[1])
+				}
+			}
+			label := "declare-removed-name"
+			if len(names) == 0 {
+				name := lib.Pick(g.r, declNames)
+				d.Pragmas = append(d.Pragmas, "#removedType("+name+")")
+				names = []string{name}
+				label = "declare-removed-name+pragma"
+			}
+			name := lib.Pick(g.r, names)
+			for _, n := range d.Nested {
+				if n.Name == name {
+					return "none"
+				}
+			}
+			n := g.decl(p, map[string]bool{}, 0)
+			n.Name = name
+			i := g.r.Intn(len(d.Nested) + 1)
+			d.Nested = append(d.Nested[:i], append([]*gDecl{n}, d.Nested[i:]...)...)
+			if g.r.Chance(1, 4) { // ... and try to drop the pragma at the same time
+				var ps []string
+				for _, pr := range d.Pragmas {
+					if pr != "#removedType("+name+")" {
+						ps = append(ps, pr)
+					}
+				}
+				d.Pragmas = ps
+				label += "+pragma-dropped"
+			}
+			return label
 		}
 	case 29:
 		for _, n := range p.Root.Nested {
